@@ -98,4 +98,49 @@ theorem dynRoundTrip_spec {h : Heap} (hwf : HeapWf h) (n : Nat) (xs : List Int) 
     · rw [Heap.set_slot_ne _ _ _ _ hi, alloc_slot, if_neg hi]
   · simp
 
+/-! ### read_chars -/
+
+theorem written_shape {h : Heap} {b b' : Buf} {k : Nat} (he : Buf.written h b k = .ok b') : b'.base = b.base ∧ b'.cap = b.cap := by
+  unfold Buf.written at he
+  split at he
+  · cases he
+  · split at he
+    · simp only [bind_eq_ok, pure_eq_ok, Except.ok.injEq] at he
+      obtain ⟨_, _, rfl⟩ := he
+      exact ⟨rfl, rfl⟩
+    · split at he
+      · simp only [pure_eq_ok, Except.ok.injEq] at he
+        subst he
+        exact ⟨rfl, rfl⟩
+      · cases he
+
+/-- read_chars.cpp against the stream specification: a good read of `count` characters yields a vector holding exactly
+them (owning the only block left behind), a short read yields nothing and leaves no allocation behind -/
+theorem readChars_spec (g : Nat → Nat → Nat) (hg : ∀ n c, n ≤ g n c) {h : Heap} (hwf : HeapWf h) (input : List Int) (count : Nat) :
+    match sreadChars input count with
+    | some xs => ∃ h' v, readChars g h input count = .ok (h', some v) ∧ Owns h' v xs ∧ Frame h none h' v.base
+    | none => ∃ h', readChars g h input count = .ok (h', none) ∧ Frame h none h' none := by
+  obtain ⟨hoc, hfc⟩ := bctor_spec hwf 0
+  have hnone : ∀ b, (none : Option Nat) = some b → b < h.next := fun b hb => by cases hb
+  by_cases hc : count ≤ input.length
+  · simp only [sreadChars, if_pos hc]
+    have hx : (input.take count).length ≤ count := by simp [List.length_take]; omega
+    obtain ⟨h1, b1, h2, b2, he1, he2, he3, ho', hf⟩ := appendCore_spec g hg hfc.wf hoc count (input.take count) hx
+    refine ⟨h2, b2.toRV, ?_, by simpa using ho'.1, Frame.trans hwf hnone hfc hf⟩
+    simp only [readChars, if_pos hc, he1, ok_bind, he2, he3, Buf.moveCtor_eq, toRawVector_eq, Buf.deallocate, Buf.null, pure_eq_ok]
+  · simp only [sreadChars, if_neg hc]
+    obtain ⟨h1, b1, he1, ho1, hf1⟩ := resizeWriteArea_spec g hg hfc.wf hoc count
+    obtain ⟨h2, b2, he2, he3, ho2, hf2, hbb⟩ := storeWritten_spec hf1.wf ho1 input (by simp only []; omega)
+    obtain ⟨hb2, hc2⟩ := written_shape he3
+    obtain ⟨h3, hd, hf3⟩ := destroy_spec hf2.wf ho2.1
+    have hdeal : Buf.deallocate h2 b1 = .ok h3 := by
+      rw [Buf.deallocate_eq]
+      have : b1.toRV = ⟨b2.toRV.base, b1.readEnd, b2.toRV.cap⟩ := by simp [Buf.toRV, hb2, hc2]
+      rw [this]
+      simpa [deallocate] using hd
+    have hfa := Frame.trans hwf hnone hfc hf1
+    have hfb := Frame.trans hwf hnone hfa hf2
+    refine ⟨h3, ?_, Frame.trans hwf hnone hfb hf3⟩
+    simp only [readChars, if_neg hc, he1, ok_bind, he2, hdeal, pure_eq_ok]
+
 end Fcppt.C07
